@@ -12,43 +12,43 @@ import (
 	"cvh/lib"
 )
 
-type vr struct {
+type dmVr struct {
 	name   string
-	t      *ty
+	t      *dmTy
 	mut    bool
 	live   bool     // resources: not yet moved / destroyed
 	nonNil bool     // optional known to be non-nil (immutable, initialized from a value)
 	minLen int      // arrays: known minimal length
 	keys   []string // dictionaries: key literals known to be present
-	dyn    *ty      // AnyStruct / interface typed: known dynamic type
+	dyn    *dmTy    // AnyStruct / interface typed: known dynamic type
 	field  bool     // `self.f` pseudo variable
 }
 
-type fctx struct {
-	ret      *ty // nil: no return value
-	self     *comp
+type dmFctx struct {
+	ret      *dmTy // nil: no return value
+	self     *dmComp
 	view     bool
 	noReturn bool // inside a resource phase: no early return
 	contract bool // body runs inside a contract (emit allowed)
 }
 
-type scope struct {
-	vars   []*vr
-	parent *scope
-	ctx    *fctx
+type dmScope struct {
+	vars   []*dmVr
+	parent *dmScope
+	ctx    *dmFctx
 	inLoop bool
 	depth  int
 }
 
-func (s *scope) child() *scope {
-	return &scope{parent: s, ctx: s.ctx, inLoop: s.inLoop, depth: s.depth + 1}
+func (s *dmScope) child() *dmScope {
+	return &dmScope{parent: s, ctx: s.ctx, inLoop: s.inLoop, depth: s.depth + 1}
 }
 
-func (s *scope) add(v *vr) *vr { s.vars = append(s.vars, v); return v }
+func (s *dmScope) add(v *dmVr) *dmVr { s.vars = append(s.vars, v); return v }
 
 // all visible variables, innermost first (shadowing is avoided by unique names)
-func (s *scope) all() []*vr {
-	var out []*vr
+func (s *dmScope) all() []*dmVr {
+	var out []*dmVr
 	for c := s; c != nil; c = c.parent {
 		for i := len(c.vars) - 1; i >= 0; i-- {
 			out = append(out, c.vars[i])
@@ -57,8 +57,8 @@ func (s *scope) all() []*vr {
 	return out
 }
 
-func (s *scope) find(pred func(*vr) bool) []*vr {
-	var out []*vr
+func (s *dmScope) find(pred func(*dmVr) bool) []*dmVr {
+	var out []*dmVr
 	for _, v := range s.all() {
 		if pred(v) {
 			out = append(out, v)
@@ -68,29 +68,29 @@ func (s *scope) find(pred func(*vr) bool) []*vr {
 }
 
 // varsSub: non-resource variables whose static type is a subtype of t.
-func (s *scope) varsSub(t *ty) []*vr {
-	return s.find(func(v *vr) bool { return !v.t.isRes() && sub(v.t, t) })
+func (s *dmScope) varsSub(t *dmTy) []*dmVr {
+	return s.find(func(v *dmVr) bool { return !v.t.isRes() && dmSub(v.t, t) })
 }
 
-func (s *scope) varsExact(t *ty) []*vr {
-	return s.find(func(v *vr) bool { return !v.t.isRes() && v.t.eq(t) })
+func (s *dmScope) varsExact(t *dmTy) []*dmVr {
+	return s.find(func(v *dmVr) bool { return !v.t.isRes() && v.t.eq(t) })
 }
 
-func (s *scope) varsKind(k kind) []*vr {
-	return s.find(func(v *vr) bool { return v.t.k == k && !v.t.isRes() })
+func (s *dmScope) varsKind(k dmKind) []*dmVr {
+	return s.find(func(v *dmVr) bool { return v.t.k == k && !v.t.isRes() })
 }
 
-func (s *scope) mutVars() []*vr {
-	return s.find(func(v *vr) bool { return v.mut && !v.t.isRes() })
+func (s *dmScope) mutVars() []*dmVr {
+	return s.find(func(v *dmVr) bool { return v.mut && !v.t.isRes() })
 }
 
 // blk accumulates lines of a body.
-type blk struct {
+type dmBlk struct {
 	lines []string
 	ind   int
 }
 
-func (b *blk) add(format string, args ...any) {
+func (b *dmBlk) add(format string, args ...any) {
 	s := format
 	if len(args) > 0 {
 		s = fmt.Sprintf(format, args...)
@@ -100,43 +100,43 @@ func (b *blk) add(format string, args ...any) {
 	}
 }
 
-func (b *blk) open(format string, args ...any)   { b.add(format, args...); b.ind++ }
-func (b *blk) close()                            { b.ind--; b.add("}") }
-func (b *blk) closeOpen(format string, a ...any) { b.ind--; b.add(format, a...); b.ind++ }
-func (b *blk) String() string                    { return strings.Join(b.lines, "\n") }
+func (b *dmBlk) open(format string, args ...any)   { b.add(format, args...); b.ind++ }
+func (b *dmBlk) close()                            { b.ind--; b.add("}") }
+func (b *dmBlk) closeOpen(format string, a ...any) { b.ind--; b.add(format, a...); b.ind++ }
+func (b *dmBlk) String() string                    { return strings.Join(b.lines, "\n") }
 
-type gen struct {
+type dmGen struct {
 	r     *lib.Rng
 	feats map[string]bool
 	n     int
 
-	structs   []*comp
-	resources []*comp
-	leafs     []*comp // leaf resources
-	conts     []*comp // container resources
-	sifaces   []*iface
-	rifaces   []*iface
-	enums     []*enumDecl
-	funcs     []*fnDecl
+	structs   []*dmComp
+	resources []*dmComp
+	leafs     []*dmComp // leaf resources
+	conts     []*dmComp // container resources
+	sifaces   []*dmIface
+	rifaces   []*dmIface
+	enums     []*dmEnumDecl
+	funcs     []*dmFnDecl
 	ents      []string
 	decls     []string
-	events    []*fnDecl // events (contract only): name + params
+	events    []*dmFnDecl // events (contract only): name + params
 
-	qc         *qualCtx
-	res        *resInfo
-	entFamily  *entInfo
+	qc         *dmQualCtx
+	res        *dmResInfo
+	entFamily  *dmEntInfo
 	outside    bool   // code is generated outside the contract declaring the types (use factories)
 	inContract string // name of the contract being generated ("" for scripts)
 	rareKnown  bool   // this program may contain shapes of known defects
 }
 
-func newGen(r *lib.Rng) *gen {
-	return &gen{r: r, feats: map[string]bool{}, qc: &qualCtx{}}
+func dmNewGen(r *lib.Rng) *dmGen {
+	return &dmGen{r: r, feats: map[string]bool{}, qc: &dmQualCtx{}}
 }
 
-func (g *gen) feat(f string) { g.feats[f] = true }
+func (g *dmGen) feat(f string) { g.feats[f] = true }
 
-func (g *gen) features() []string {
+func (g *dmGen) features() []string {
 	var out []string
 	for f := range g.feats {
 		out = append(out, f)
@@ -145,43 +145,43 @@ func (g *gen) features() []string {
 	return out
 }
 
-func (g *gen) fresh(prefix string) string {
+func (g *dmGen) fresh(prefix string) string {
 	g.n++
 	return fmt.Sprintf("%s%d", prefix, g.n)
 }
 
-func (g *gen) chance(num, den int) bool { return g.r.Chance(num, den) }
+func (g *dmGen) chance(num, den int) bool { return g.r.Chance(num, den) }
 
-func pick[T any](g *gen, xs []T) T { return xs[g.r.Intn(len(xs))] }
+func dmPick[T any](g *dmGen, xs []T) T { return xs[g.r.Intn(len(xs))] }
 
 // ------------------------------------------------------------------ random types
 
-func (g *gen) primType() *ty {
+func (g *dmGen) primType() *dmTy {
 	switch g.r.Intn(10) {
 	case 0, 1, 2, 3:
-		return tInt
+		return dmTInt
 	case 4:
-		return pick(g, numTypes)
+		return dmPick(g, dmNumTypes)
 	case 5, 6:
-		return tString
+		return dmTString
 	case 7:
-		return tBool
+		return dmTBool
 	case 8:
 		if len(g.enums) > 0 {
-			return pick(g, g.enums).t
+			return dmPick(g, g.enums).t
 		}
-		return tInt8
+		return dmTInt8
 	default:
-		return pick(g, []*ty{tInt8, tUInt8, tUFix64, tAddress, tInt64, tWord8})
+		return dmPick(g, []*dmTy{dmTInt8, dmTUInt8, dmTUFix64, dmTAddress, dmTInt64, dmTWord8})
 	}
 }
 
-func (g *gen) keyType() *ty {
-	return pick(g, []*ty{tString, tInt, tString, tInt8, tBool, tAddress})
+func (g *dmGen) keyType() *dmTy {
+	return dmPick(g, []*dmTy{dmTString, dmTInt, dmTString, dmTInt8, dmTBool, dmTAddress})
 }
 
 // valueType: a random non-resource type.
-func (g *gen) valueType(d int) *ty {
+func (g *dmGen) valueType(d int) *dmTy {
 	if d <= 0 {
 		return g.primType()
 	}
@@ -189,34 +189,34 @@ func (g *gen) valueType(d int) *ty {
 	case 0, 1, 2, 3, 4, 5:
 		return g.primType()
 	case 6, 7:
-		return opt(g.valueType(d - 1))
+		return dmOpt(g.valueType(d - 1))
 	case 8, 9, 10:
-		return arr(g.valueType(d - 1))
+		return dmArr(g.valueType(d - 1))
 	case 11, 12:
-		return dict(g.keyType(), g.valueType(d-1))
+		return dmDict(g.keyType(), g.valueType(d-1))
 	case 13, 14, 15:
 		if len(g.structs) > 0 {
-			return pick(g, g.structs).t
+			return dmPick(g, g.structs).t
 		}
 		return g.primType()
 	case 16:
-		return tAnyStruct
+		return dmTAnyStruct
 	case 17:
 		if is := g.implementedIfaces(); len(is) > 0 {
-			i := pick(g, is)
+			i := dmPick(g, is)
 			return i.ty()
 		}
-		return opt(g.primType())
+		return dmOpt(g.primType())
 	case 18:
-		return carr(g.primType(), 2+g.r.Intn(2))
+		return dmCarr(g.primType(), 2+g.r.Intn(2))
 	default:
-		return fun(g.primType(), g.primType())
+		return dmFun(g.primType(), g.primType())
 	}
 }
 
 // implementedIfaces: struct interfaces some declared struct conforms to.
-func (g *gen) implementedIfaces() []*iface {
-	var out []*iface
+func (g *dmGen) implementedIfaces() []*dmIface {
+	var out []*dmIface
 	for _, i := range g.sifaces {
 		for _, c := range g.structs {
 			if c.conforms(i) {
@@ -230,16 +230,16 @@ func (g *gen) implementedIfaces() []*iface {
 
 // ------------------------------------------------------------------ literals and atoms
 
-func (g *gen) smallInt() int {
+func (g *dmGen) smallInt() int {
 	if g.chance(1, 30) {
-		return pick(g, []int{127, 128, 255, 256, 0, 1})
+		return dmPick(g, []int{127, 128, 255, 256, 0, 1})
 	}
 	return g.r.Intn(10)
 }
 
 // numLit renders a literal of a number type; typed=false wraps it in the conversion function
 // so that it has the type without an expected type.
-func (g *gen) numLit(t *ty, typed bool) string {
+func (g *dmGen) numLit(t *dmTy, typed bool) string {
 	n := g.smallInt()
 	switch t.name {
 	case "Int8":
@@ -255,7 +255,7 @@ func (g *gen) numLit(t *ty, typed bool) string {
 	if t.isFix() {
 		s = fmt.Sprintf("%d.%d", n%50, g.r.Intn(100))
 	} else {
-		s = itoa(n)
+		s = dmItoa(n)
 	}
 	if t.name == "Int" && !t.isFix() {
 		return s
@@ -269,49 +269,49 @@ func (g *gen) numLit(t *ty, typed bool) string {
 	return t.name + "(" + s + ")"
 }
 
-var strPool = []string{"", "a", "abc", "Hello", "x y", "k1", "k2", "flow", "0", "12"}
+var dmStrPool = []string{"", "a", "abc", "Hello", "x y", "k1", "k2", "flow", "0", "12"}
 
-func (g *gen) strLit() string { return `"` + pick(g, strPool) + `"` }
+func (g *dmGen) strLit() string { return `"` + dmPick(g, dmStrPool) + `"` }
 
-func (g *gen) keyLit(t *ty, i int) string {
+func (g *dmGen) keyLit(t *dmTy, i int) string {
 	switch t.k {
-	case kString:
+	case dmKString:
 		return fmt.Sprintf(`"k%d"`, i)
-	case kBool:
+	case dmKBool:
 		if i%2 == 0 {
 			return "true"
 		}
 		return "false"
-	case kAddress:
+	case dmKAddress:
 		return fmt.Sprintf("Address(0x%d)", i+1)
-	case kInt:
+	case dmKInt:
 		if t.name == "Int" {
-			return itoa(i)
+			return dmItoa(i)
 		}
 		return fmt.Sprintf("%s(%d)", t.name, i)
 	}
-	return itoa(i)
+	return dmItoa(i)
 }
 
 // lit: a literal-like expression of type t valid where t is the expected type.
-func (g *gen) lit(s *scope, t *ty, d int) string {
+func (g *dmGen) lit(s *dmScope, t *dmTy, d int) string {
 	switch t.k {
-	case kInt:
+	case dmKInt:
 		return g.numLit(t, true)
-	case kBool:
-		return pick(g, []string{"true", "false"})
-	case kString:
+	case dmKBool:
+		return dmPick(g, []string{"true", "false"})
+	case dmKString:
 		return g.strLit()
-	case kAddress:
+	case dmKAddress:
 		return fmt.Sprintf("0x%d", 1+g.r.Intn(3))
-	case kChar:
-		return pick(g, []string{`"a"`, `"b"`, `"z"`})
-	case kOpt:
+	case dmKChar:
+		return dmPick(g, []string{`"a"`, `"b"`, `"z"`})
+	case dmKOpt:
 		if g.chance(1, 3) {
 			return "nil"
 		}
 		return g.lit(s, t.elem, d)
-	case kArr:
+	case dmKArr:
 		n := g.r.Intn(3)
 		if g.chance(3, 4) {
 			n = 2 + g.r.Intn(2)
@@ -321,15 +321,15 @@ func (g *gen) lit(s *scope, t *ty, d int) string {
 			xs = append(xs, g.expr(s, t.elem, d-1))
 		}
 		return "[" + strings.Join(xs, ", ") + "]"
-	case kCArr:
+	case dmKCArr:
 		var xs []string
 		for i := 0; i < t.n; i++ {
 			xs = append(xs, g.expr(s, t.elem, d-1))
 		}
 		return "[" + strings.Join(xs, ", ") + "]"
-	case kDict:
+	case dmKDict:
 		n := 1 + g.r.Intn(3)
-		if t.key.k == kBool && n > 2 {
+		if t.key.k == dmKBool && n > 2 {
 			n = 2
 		}
 		var xs []string
@@ -337,32 +337,32 @@ func (g *gen) lit(s *scope, t *ty, d int) string {
 			xs = append(xs, g.keyLit(t.key, i)+": "+g.expr(s, t.elem, d-1))
 		}
 		return "{" + strings.Join(xs, ", ") + "}"
-	case kStruct:
+	case dmKStruct:
 		return g.construct(s, t.comp, d)
-	case kEnum:
+	case dmKEnum:
 		e := g.enumOf(t)
-		return t.String() + "." + pick(g, e.cases)
-	case kAnyStruct:
+		return t.String() + "." + dmPick(g, e.cases)
+	case dmKAnyStruct:
 		return g.expr(s, g.primType(), d-1)
-	case kIface:
+	case dmKIface:
 		for _, c := range g.shuffledStructs() {
 			if c.conforms(t.iface) {
 				return g.construct(s, c, d)
 			}
 		}
 		panic("no struct conforms to " + t.name)
-	case kFun:
+	case dmKFun:
 		return g.closure(s, t, d)
-	case kRange:
+	case dmKRange:
 		return g.rangeExpr(s, d)
-	case kRef:
+	case dmKRef:
 		return g.refExpr(s, t, d)
 	}
 	panic("lit: unsupported type " + t.String())
 }
 
-func (g *gen) shuffledStructs() []*comp {
-	out := append([]*comp{}, g.structs...)
+func (g *dmGen) shuffledStructs() []*dmComp {
+	out := append([]*dmComp{}, g.structs...)
 	for i := len(out) - 1; i > 0; i-- {
 		j := g.r.Intn(i + 1)
 		out[i], out[j] = out[j], out[i]
@@ -370,7 +370,7 @@ func (g *gen) shuffledStructs() []*comp {
 	return out
 }
 
-func (g *gen) enumOf(t *ty) *enumDecl {
+func (g *dmGen) enumOf(t *dmTy) *dmEnumDecl {
 	for _, e := range g.enums {
 		if e.t.eq(t) || e.name == t.name {
 			return e
@@ -379,7 +379,7 @@ func (g *gen) enumOf(t *ty) *enumDecl {
 	panic("unknown enum " + t.name)
 }
 
-func (g *gen) construct(s *scope, c *comp, d int) string {
+func (g *dmGen) construct(s *dmScope, c *dmComp, d int) string {
 	var args []string
 	for _, f := range c.fields {
 		args = append(args, f.name+": "+g.expr(s, f.t, d-1))
@@ -387,7 +387,7 @@ func (g *gen) construct(s *scope, c *comp, d int) string {
 	return c.t.String() + "(" + strings.Join(args, ", ") + ")"
 }
 
-func (g *gen) rangeExpr(s *scope, d int) string {
+func (g *dmGen) rangeExpr(s *dmScope, d int) string {
 	lo := g.r.Intn(3)
 	hi := lo + g.r.Intn(5)
 	if g.chance(1, 3) {
@@ -400,42 +400,42 @@ func (g *gen) rangeExpr(s *scope, d int) string {
 }
 
 // exact: an expression whose static type is exactly t without an expected type.
-func (g *gen) exact(s *scope, t *ty, d int) string {
+func (g *dmGen) exact(s *dmScope, t *dmTy, d int) string {
 	if vs := s.varsExact(t); len(vs) > 0 && g.chance(1, 2) {
-		return pick(g, vs).name
+		return dmPick(g, vs).name
 	}
 	switch t.k {
-	case kInt:
+	case dmKInt:
 		if t.name == "Int" || t.name == "UFix64" {
 			return g.numLit(t, false)
 		}
 		return g.numLit(t, false)
-	case kBool:
-		return pick(g, []string{"true", "false"})
-	case kString:
+	case dmKBool:
+		return dmPick(g, []string{"true", "false"})
+	case dmKString:
 		return g.strLit()
-	case kStruct:
+	case dmKStruct:
 		return g.construct(s, t.comp, d)
-	case kEnum:
+	case dmKEnum:
 		return g.lit(s, t, d)
-	case kFun:
+	case dmKFun:
 		return g.closure(s, t, d)
-	case kRange:
+	case dmKRange:
 		return g.rangeExpr(s, d)
 	}
 	return "(" + g.expr(s, t, d) + " as " + t.String() + ")"
 }
 
 // atom: operand of a binary expression (exact type, simple).
-func (g *gen) atom(s *scope, t *ty) string {
+func (g *dmGen) atom(s *dmScope, t *dmTy) string {
 	vs := s.varsExact(t)
 	if len(vs) > 0 && g.chance(3, 4) {
-		return pick(g, vs).name
+		return dmPick(g, vs).name
 	}
 	switch t.k {
-	case kInt:
+	case dmKInt:
 		return g.numLit(t, false)
-	case kBool, kString:
+	case dmKBool, dmKString:
 		return g.exact(s, t, 0)
 	}
 	return g.exact(s, t, 0)
@@ -443,26 +443,26 @@ func (g *gen) atom(s *scope, t *ty) string {
 
 // ------------------------------------------------------------------ expressions
 
-func (g *gen) boolExpr(s *scope, d int) string { return g.expr(s, tBool, d) }
+func (g *dmGen) boolExpr(s *dmScope, d int) string { return g.expr(s, dmTBool, d) }
 
 // expr: an expression assignable to t where t is the expected type. Never a resource type.
-func (g *gen) expr(s *scope, t *ty, d int) string {
+func (g *dmGen) expr(s *dmScope, t *dmTy, d int) string {
 	if t.isRes() {
 		panic("expr on resource type " + t.String())
 	}
 	cands := s.varsSub(t)
 	if d <= 0 {
 		if len(cands) > 0 && g.chance(2, 3) {
-			return pick(g, cands).name
+			return dmPick(g, cands).name
 		}
-		if t.k == kRef || t.k == kFun {
+		if t.k == dmKRef || t.k == dmKFun {
 			return g.lit(s, t, 1)
 		}
 		return g.lit(s, t, 0)
 	}
-	if t.k == kRef || t.k == kFun || t.k == kRange {
+	if t.k == dmKRef || t.k == dmKFun || t.k == dmKRange {
 		if len(cands) > 0 && g.chance(1, 2) {
-			return pick(g, cands).name
+			return dmPick(g, cands).name
 		}
 		return g.lit(s, t, d)
 	}
@@ -470,20 +470,22 @@ func (g *gen) expr(s *scope, t *ty, d int) string {
 	switch {
 	case roll < 22:
 		if len(cands) > 0 {
-			return pick(g, cands).name
+			return dmPick(g, cands).name
 		}
 	case roll < 28:
 		g.feat("conditional-expr")
 		return "(" + g.boolExpr(s, d-1) + " ? " + g.expr(s, t, d-1) + " : " + g.expr(s, t, d-1) + ")"
 	case roll < 33:
-		if t.k != kOpt {
+		if t.k != dmKOpt {
 			g.feat("nil-coalescing")
-			return "(" + g.optOperand(s, opt(t), d-1) + " ?? " + g.rhs(s, t, d-1) + ")"
+			return "(" + g.optOperand(s, dmOpt(t), d-1) + " ?? " + g.rhs(s, t, d-1) + ")"
 		}
 	case roll < 38:
 		// force unwrap
-		ovs := s.find(func(v *vr) bool { return v.t.k == kOpt && !v.t.isRes() && sub(v.t.elem, t) && v.t.elem.k != kOpt })
-		var safe []*vr
+		ovs := s.find(func(v *dmVr) bool {
+			return v.t.k == dmKOpt && !v.t.isRes() && dmSub(v.t.elem, t) && v.t.elem.k != dmKOpt
+		})
+		var safe []*dmVr
 		for _, v := range ovs {
 			if v.nonNil {
 				safe = append(safe, v)
@@ -491,31 +493,31 @@ func (g *gen) expr(s *scope, t *ty, d int) string {
 		}
 		if len(safe) > 0 {
 			g.feat("force-unwrap")
-			return pick(g, safe).name + "!"
+			return dmPick(g, safe).name + "!"
 		}
 		if len(ovs) > 0 && g.chance(1, 4) {
 			g.feat("force-unwrap")
-			return pick(g, ovs).name + "!"
+			return dmPick(g, ovs).name + "!"
 		}
-		if t.k != kOpt && g.chance(1, 3) {
+		if t.k != dmKOpt && g.chance(1, 3) {
 			g.feat("force-unwrap")
-			return "(" + g.optOperand(s, opt(t), d-1) + ")!"
+			return "(" + g.optOperand(s, dmOpt(t), d-1) + ")!"
 		}
 	case roll < 42:
-		if t.k != kAnyStruct {
+		if t.k != dmKAnyStruct {
 			g.feat("static-cast")
 			return "(" + g.expr(s, t, d-1) + " as " + t.String() + ")"
 		}
 	case roll < 46:
-		if t.k != kAnyStruct && t.k != kIface {
+		if t.k != dmKAnyStruct && t.k != dmKIface {
 			g.feat("force-cast")
 			return "((" + g.exact(s, t, d-1) + " as AnyStruct) as! " + t.String() + ")"
 		}
 	case roll < 49:
 		// downcast of an AnyStruct / interface variable with known dynamic type
-		vs := s.find(func(v *vr) bool { return v.dyn != nil && sub(v.dyn, t) && !v.dyn.isRes() && v.dyn.k != kFun })
+		vs := s.find(func(v *dmVr) bool { return v.dyn != nil && dmSub(v.dyn, t) && !v.dyn.isRes() && v.dyn.k != dmKFun })
 		if len(vs) > 0 {
-			v := pick(g, vs)
+			v := dmPick(g, vs)
 			g.feat("force-cast")
 			if g.chance(1, 2) {
 				return "(" + v.name + " as! " + v.dyn.String() + ")"
@@ -539,9 +541,9 @@ func (g *gen) expr(s *scope, t *ty, d int) string {
 		}
 	case roll < 70:
 		// call of a function value
-		fs := s.find(func(v *vr) bool { return v.t.k == kFun && sub(v.t.ret, t) && !v.t.ret.isRes() })
+		fs := s.find(func(v *dmVr) bool { return v.t.k == dmKFun && dmSub(v.t.ret, t) && !v.t.ret.isRes() })
 		if len(fs) > 0 {
-			f := pick(g, fs)
+			f := dmPick(g, fs)
 			g.feat("function-value-call")
 			var args []string
 			for _, p := range f.t.params {
@@ -555,13 +557,13 @@ func (g *gen) expr(s *scope, t *ty, d int) string {
 
 // rhs: right operand of ?? whose static type must be exactly t (the result type of ?? is the least
 // common supertype of both sides).
-func (g *gen) rhs(s *scope, t *ty, d int) string {
+func (g *dmGen) rhs(s *dmScope, t *dmTy, d int) string {
 	switch t.k {
-	case kInt, kBool, kString, kStruct, kEnum, kAddress:
-		if t.k == kInt && t.name != "Int" {
+	case dmKInt, dmKBool, dmKString, dmKStruct, dmKEnum, dmKAddress:
+		if t.k == dmKInt && t.name != "Int" {
 			return g.atom(s, t)
 		}
-		if t.k == kStruct {
+		if t.k == dmKStruct {
 			return g.exact(s, t, d)
 		}
 		return g.expr(s, t, d)
@@ -570,15 +572,15 @@ func (g *gen) rhs(s *scope, t *ty, d int) string {
 }
 
 // optOperand: an expression of static type exactly optional (operand of ??, !, ?.).
-func (g *gen) optOperand(s *scope, t *ty, d int) string {
+func (g *dmGen) optOperand(s *dmScope, t *dmTy, d int) string {
 	vs := s.varsExact(t)
 	if len(vs) > 0 && g.chance(2, 3) {
-		return pick(g, vs).name
+		return dmPick(g, vs).name
 	}
 	// dictionary lookup
-	ds := s.find(func(v *vr) bool { return v.t.k == kDict && !v.t.isRes() && v.t.elem.eq(t.elem) })
+	ds := s.find(func(v *dmVr) bool { return v.t.k == dmKDict && !v.t.isRes() && v.t.elem.eq(t.elem) })
 	if len(ds) > 0 && g.chance(1, 2) {
-		dv := pick(g, ds)
+		dv := dmPick(g, ds)
 		g.feat("dict-lookup")
 		return dv.name + "[" + g.dictKey(s, dv) + "]"
 	}
@@ -594,24 +596,26 @@ func (g *gen) optOperand(s *scope, t *ty, d int) string {
 	return "(" + g.expr(s, t, d) + " as " + t.String() + ")"
 }
 
-func (g *gen) dictKey(s *scope, dv *vr) string {
+func (g *dmGen) dictKey(s *dmScope, dv *dmVr) string {
 	if len(dv.keys) > 0 && g.chance(3, 4) {
-		return pick(g, dv.keys)
+		return dmPick(g, dv.keys)
 	}
 	return g.keyLit(dv.t.key, g.r.Intn(4))
 }
 
 // indexInto: a[i] / d[k]! / (d[k] ?? e) of type <: t.
-func (g *gen) indexInto(s *scope, t *ty, d int) string {
-	as := s.find(func(v *vr) bool {
-		return (v.t.k == kArr || v.t.k == kCArr) && !v.t.isRes() && sub(v.t.elem, t)
+func (g *dmGen) indexInto(s *dmScope, t *dmTy, d int) string {
+	as := s.find(func(v *dmVr) bool {
+		return (v.t.k == dmKArr || v.t.k == dmKCArr) && !v.t.isRes() && dmSub(v.t.elem, t)
 	})
-	ds := s.find(func(v *vr) bool { return v.t.k == kDict && !v.t.isRes() && sub(v.t.elem, t) && v.t.elem.k != kOpt })
+	ds := s.find(func(v *dmVr) bool {
+		return v.t.k == dmKDict && !v.t.isRes() && dmSub(v.t.elem, t) && v.t.elem.k != dmKOpt
+	})
 	if len(as) > 0 && (len(ds) == 0 || g.chance(1, 2)) {
-		a := pick(g, as)
+		a := dmPick(g, as)
 		g.feat("array-index")
 		n := a.minLen
-		if a.t.k == kCArr {
+		if a.t.k == dmKCArr {
 			n = a.t.n
 		}
 		if n > 0 {
@@ -623,11 +627,11 @@ func (g *gen) indexInto(s *scope, t *ty, d int) string {
 		return fmt.Sprintf("(%s.length > 0 ? %s[%s.length - 1] : %s)", a.name, a.name, a.name, g.expr(s, t, d-1))
 	}
 	if len(ds) > 0 {
-		dv := pick(g, ds)
+		dv := dmPick(g, ds)
 		g.feat("dict-lookup")
 		k := g.dictKey(s, dv)
 		if len(dv.keys) > 0 && !dv.mut && g.chance(1, 2) {
-			return dv.name + "[" + pick(g, dv.keys) + "]!"
+			return dv.name + "[" + dmPick(g, dv.keys) + "]!"
 		}
 		if !dv.t.elem.eq(t) {
 			return "(" + dv.name + "[" + k + "] ?? (" + g.expr(s, dv.t.elem, d-1) + " as " + dv.t.elem.String() + "))"
@@ -638,23 +642,23 @@ func (g *gen) indexInto(s *scope, t *ty, d int) string {
 }
 
 // fieldOf: v.f of type <: t for a struct-typed (or reference-to-struct) variable.
-func (g *gen) fieldOf(s *scope, t *ty) string {
+func (g *dmGen) fieldOf(s *dmScope, t *dmTy) string {
 	type cand struct{ e string }
 	var cs []cand
 	for _, v := range s.all() {
-		c := compOf(v.t)
+		c := dmCompOf(v.t)
 		if c == nil || (v.t.isRes() && !v.live) {
 			continue
 		}
-		viaRef := v.t.k == kRef
+		viaRef := v.t.k == dmKRef
 		for _, f := range c.fields {
 			if f.access != "all" || f.t.isRes() {
 				continue
 			}
-			if viaRef && !(f.t.k == kInt || f.t.k == kBool || f.t.k == kString || f.t.k == kEnum) {
+			if viaRef && !(f.t.k == dmKInt || f.t.k == dmKBool || f.t.k == dmKString || f.t.k == dmKEnum) {
 				continue
 			}
-			if sub(f.t, t) {
+			if dmSub(f.t, t) {
 				cs = append(cs, cand{v.name + "." + f.name})
 			}
 		}
@@ -663,15 +667,15 @@ func (g *gen) fieldOf(s *scope, t *ty) string {
 		return ""
 	}
 	g.feat("field-access")
-	return pick(g, cs).e
+	return dmPick(g, cs).e
 }
 
-func compOf(t *ty) *comp {
+func dmCompOf(t *dmTy) *dmComp {
 	switch t.k {
-	case kStruct, kRes:
+	case dmKStruct, dmKRes:
 		return t.comp
-	case kRef:
-		if t.elem.k == kStruct || t.elem.k == kRes {
+	case dmKRef:
+		if t.elem.k == dmKStruct || t.elem.k == dmKRes {
 			return t.elem.comp
 		}
 	}
@@ -679,20 +683,20 @@ func compOf(t *ty) *comp {
 }
 
 // callReturning: a call of a global function or a method whose result is <: t.
-func (g *gen) callReturning(s *scope, t *ty, d int) string {
+func (g *dmGen) callReturning(s *dmScope, t *dmTy, d int) string {
 	return g.callReturningX(s, t, d, false)
 }
 
 // callReturningX: with exact, the declared result type must be exactly t.
-func (g *gen) callReturningX(s *scope, t *ty, d int, exact bool) string {
+func (g *dmGen) callReturningX(s *dmScope, t *dmTy, d int, exact bool) string {
 	type cand struct {
 		recv string
-		f    *fnDecl
+		f    *dmFnDecl
 	}
 	var cs []cand
 	if !s.ctx.view {
 		for _, f := range g.funcs {
-			if f.ret != nil && !f.ret.isRes() && sub(f.ret, t) && g.argsOK(f) && (!exact || f.ret.eq(t)) {
+			if f.ret != nil && !f.ret.isRes() && dmSub(f.ret, t) && g.argsOK(f) && (!exact || f.ret.eq(t)) {
 				cs = append(cs, cand{"", f})
 			}
 		}
@@ -701,26 +705,26 @@ func (g *gen) callReturningX(s *scope, t *ty, d int, exact bool) string {
 		if v.field && s.ctx.view {
 			continue
 		}
-		var ms []*fnDecl
+		var ms []*dmFnDecl
 		switch v.t.k {
-		case kStruct, kRes:
+		case dmKStruct, dmKRes:
 			if v.t.isRes() && !v.live {
 				continue
 			}
 			ms = v.t.comp.allMethods()
-		case kIface:
+		case dmKIface:
 			if v.t.isRes() && !v.live {
 				continue
 			}
 			ms = v.t.iface.allMethods()
-		case kRef:
-			if c := compOf(v.t); c != nil {
+		case dmKRef:
+			if c := dmCompOf(v.t); c != nil {
 				for _, m := range c.allMethods() {
 					if m.access == "" || strings.Contains(v.t.auth, m.access) {
 						ms = append(ms, m)
 					}
 				}
-			} else if v.t.elem.k == kIface {
+			} else if v.t.elem.k == dmKIface {
 				for _, m := range v.t.elem.iface.allMethods() {
 					if m.access == "" {
 						ms = append(ms, m)
@@ -729,13 +733,13 @@ func (g *gen) callReturningX(s *scope, t *ty, d int, exact bool) string {
 			}
 		}
 		for _, m := range ms {
-			if m.ret == nil || m.ret.isRes() || !sub(m.ret, t) || !g.argsOK(m) || (exact && !m.ret.eq(t)) {
+			if m.ret == nil || m.ret.isRes() || !dmSub(m.ret, t) || !g.argsOK(m) || (exact && !m.ret.eq(t)) {
 				continue
 			}
 			if s.ctx.view && !m.view {
 				continue
 			}
-			if m.mutating && !v.mut && v.t.k == kStruct && !v.field {
+			if m.mutating && !v.mut && v.t.k == dmKStruct && !v.field {
 				// calling a mutating method on a `let` struct is allowed; keep it
 			}
 			cs = append(cs, cand{v.name, m})
@@ -749,7 +753,7 @@ func (g *gen) callReturningX(s *scope, t *ty, d int, exact bool) string {
 	return g.call(s, c.recv, c.f, d)
 }
 
-func (g *gen) argsOK(f *fnDecl) bool {
+func (g *dmGen) argsOK(f *dmFnDecl) bool {
 	for _, p := range f.params {
 		if p.t.isRes() {
 			return false
@@ -758,7 +762,7 @@ func (g *gen) argsOK(f *fnDecl) bool {
 	return true
 }
 
-func (g *gen) call(s *scope, recv string, f *fnDecl, d int) string {
+func (g *dmGen) call(s *dmScope, recv string, f *dmFnDecl, d int) string {
 	var args []string
 	for _, p := range f.params {
 		a := g.expr(s, p.t, d-1)
@@ -779,70 +783,70 @@ func (g *gen) call(s *scope, recv string, f *fnDecl, d int) string {
 }
 
 // kindExpr: type-specific expression forms.
-func (g *gen) kindExpr(s *scope, t *ty, d int) string {
+func (g *dmGen) kindExpr(s *dmScope, t *dmTy, d int) string {
 	switch t.k {
-	case kInt:
+	case dmKInt:
 		return g.intExpr(s, t, d)
-	case kBool:
+	case dmKBool:
 		return g.boolKind(s, d)
-	case kString:
+	case dmKString:
 		return g.stringExpr(s, d)
-	case kOpt:
+	case dmKOpt:
 		return g.optExpr(s, t, d)
-	case kArr:
+	case dmKArr:
 		return g.arrExpr(s, t, d)
-	case kAnyStruct:
+	case dmKAnyStruct:
 		u := g.valueType(1)
-		if u.k == kFun || u.k == kAnyStruct {
-			u = tInt
+		if u.k == dmKFun || u.k == dmKAnyStruct {
+			u = dmTInt
 		}
 		return g.expr(s, u, d-1)
 	}
 	return g.lit(s, t, d)
 }
 
-func (g *gen) intExpr(s *scope, t *ty, d int) string {
+func (g *dmGen) intExpr(s *dmScope, t *dmTy, d int) string {
 	a, b := g.atom(s, t), g.atom(s, t)
 	roll := g.r.Intn(24)
 	if t.name == "Int" {
 		switch roll {
 		case 0:
-			if vs := s.find(func(v *vr) bool {
-				return (v.t.k == kArr || v.t.k == kString || v.t.k == kDict || v.t.k == kCArr) && (!v.t.isRes() || v.live)
+			if vs := s.find(func(v *dmVr) bool {
+				return (v.t.k == dmKArr || v.t.k == dmKString || v.t.k == dmKDict || v.t.k == dmKCArr) && (!v.t.isRes() || v.live)
 			}); len(vs) > 0 {
 				g.feat("length")
-				return pick(g, vs).name + ".length"
+				return dmPick(g, vs).name + ".length"
 			}
 		case 1:
-			if vs := s.find(func(v *vr) bool { return v.t.k == kInt && !v.t.isFix() && v.t.name != "Int" }); len(vs) > 0 {
+			if vs := s.find(func(v *dmVr) bool { return v.t.k == dmKInt && !v.t.isFix() && v.t.name != "Int" }); len(vs) > 0 {
 				g.feat("number-conversion")
-				return "Int(" + pick(g, vs).name + ")"
+				return "Int(" + dmPick(g, vs).name + ")"
 			}
 		case 2:
-			if vs := s.varsKind(kRange); len(vs) > 0 {
+			if vs := s.varsKind(dmKRange); len(vs) > 0 {
 				g.feat("inclusive-range")
-				return pick(g, vs).name + "." + pick(g, []string{"start", "end", "step"})
+				return dmPick(g, vs).name + "." + dmPick(g, []string{"start", "end", "step"})
 			}
 		case 3:
 			g.feat("string-functions")
-			return "(Int.fromString(" + g.expr(s, tString, d-1) + ") ?? " + itoa(g.smallInt()) + ")"
+			return "(Int.fromString(" + g.expr(s, dmTString, d-1) + ") ?? " + dmItoa(g.smallInt()) + ")"
 		case 4:
-			if vs := s.find(func(v *vr) bool { return v.t.k == kArr && v.t.elem.eq(tInt) }); len(vs) > 0 {
+			if vs := s.find(func(v *dmVr) bool { return v.t.k == dmKArr && v.t.elem.eq(dmTInt) }); len(vs) > 0 {
 				g.feat("array-functions")
-				return "(" + pick(g, vs).name + ".firstIndex(of: " + a + ") ?? -1)"
+				return "(" + dmPick(g, vs).name + ".firstIndex(of: " + a + ") ?? -1)"
 			}
 		}
 	} else if roll == 0 && !t.isFix() {
 		// checked conversion from Int (may overflow: user error)
 		g.feat("number-conversion")
 		if t.isSigned() || g.chance(1, 6) {
-			return t.name + "(" + g.atom(s, tInt) + ")"
+			return t.name + "(" + g.atom(s, dmTInt) + ")"
 		}
-		return t.name + "(" + itoa(g.r.Intn(100)) + ")"
+		return t.name + "(" + dmItoa(g.r.Intn(100)) + ")"
 	} else if roll == 1 && len(g.enums) > 0 && t.name == "UInt8" {
-		if vs := s.varsKind(kEnum); len(vs) > 0 {
+		if vs := s.varsKind(dmKEnum); len(vs) > 0 {
 			g.feat("enum")
-			return pick(g, vs).name + ".rawValue"
+			return dmPick(g, vs).name + ".rawValue"
 		}
 	}
 	g.feat("arithmetic")
@@ -863,19 +867,19 @@ func (g *gen) intExpr(s *scope, t *ty, d int) string {
 		if g.chance(1, 8) {
 			return "(" + a + " / " + b + ")"
 		}
-		return "(" + a + " / " + t.name + "(" + itoa(1+g.r.Intn(5)) + "))"
+		return "(" + a + " / " + t.name + "(" + dmItoa(1+g.r.Intn(5)) + "))"
 	case 6:
 		if g.chance(1, 8) {
 			return "(" + a + " % " + b + ")"
 		}
-		return "(" + a + " % " + t.name + "(" + itoa(1+g.r.Intn(5)) + "))"
+		return "(" + a + " % " + t.name + "(" + dmItoa(1+g.r.Intn(5)) + "))"
 	case 7:
 		if !t.isFix() {
-			return "(" + a + " " + pick(g, []string{"&", "|", "^"}) + " " + b + ")"
+			return "(" + a + " " + dmPick(g, []string{"&", "|", "^"}) + " " + b + ")"
 		}
 	case 8:
 		if !t.isFix() {
-			return "(" + a + " " + pick(g, []string{"<<", ">>"}) + " " + t.name + "(" + itoa(g.r.Intn(4)) + "))"
+			return "(" + a + " " + dmPick(g, []string{"<<", ">>"}) + " " + t.name + "(" + dmItoa(g.r.Intn(4)) + "))"
 		}
 	case 9:
 		if t.isSigned() {
@@ -883,70 +887,72 @@ func (g *gen) intExpr(s *scope, t *ty, d int) string {
 		}
 	case 10:
 		if !t.isFix() && !t.isWord() && t.name != "Int" && t.name != "UInt" {
-			return a + "." + pick(g, []string{"saturatingAdd", "saturatingMultiply"}) + "(" + b + ")"
+			return a + "." + dmPick(g, []string{"saturatingAdd", "saturatingMultiply"}) + "(" + b + ")"
 		}
 	}
 	return "(" + a + " + " + g.expr(s, t, d-1) + ")"
 }
 
-func equatable(t *ty) bool {
+func dmEquatable(t *dmTy) bool {
 	switch t.k {
-	case kInt, kBool, kString, kAddress, kEnum, kChar:
+	case dmKInt, dmKBool, dmKString, dmKAddress, dmKEnum, dmKChar:
 		return true
-	case kOpt:
-		return equatable(t.elem)
-	case kArr:
-		return equatable(t.elem)
+	case dmKOpt:
+		return dmEquatable(t.elem)
+	case dmKArr:
+		return dmEquatable(t.elem)
 	}
 	return false
 }
 
-func (g *gen) boolKind(s *scope, d int) string {
+func (g *dmGen) boolKind(s *dmScope, d int) string {
 	switch g.r.Intn(14) {
 	case 0, 1, 2:
-		t := pick(g, numTypes)
-		if vs := s.varsKind(kInt); len(vs) > 0 && g.chance(3, 4) {
-			t = pick(g, vs).t
+		t := dmPick(g, dmNumTypes)
+		if vs := s.varsKind(dmKInt); len(vs) > 0 && g.chance(3, 4) {
+			t = dmPick(g, vs).t
 		}
 		g.feat("comparison")
-		return "(" + g.atom(s, t) + " " + pick(g, []string{"<", "<=", ">", ">=", "==", "!="}) + " " + g.atom(s, t) + ")"
+		return "(" + g.atom(s, t) + " " + dmPick(g, []string{"<", "<=", ">", ">=", "==", "!="}) + " " + g.atom(s, t) + ")"
 	case 3:
-		if vs := s.find(func(v *vr) bool { return equatable(v.t) && !v.t.isRes() }); len(vs) > 0 {
-			v := pick(g, vs)
+		if vs := s.find(func(v *dmVr) bool { return dmEquatable(v.t) && !v.t.isRes() }); len(vs) > 0 {
+			v := dmPick(g, vs)
 			g.feat("equality")
-			return "(" + v.name + " " + pick(g, []string{"==", "!="}) + " " + g.expr(s, v.t, d-1) + ")"
+			return "(" + v.name + " " + dmPick(g, []string{"==", "!="}) + " " + g.expr(s, v.t, d-1) + ")"
 		}
 	case 4:
-		return "!" + g.atom(s, tBool)
+		return "!" + g.atom(s, dmTBool)
 	case 5:
 		return "(" + g.boolExpr(s, d-1) + " && " + g.boolExpr(s, d-1) + ")"
 	case 6:
 		return "(" + g.boolExpr(s, d-1) + " || " + g.boolExpr(s, d-1) + ")"
 	case 7:
-		if vs := s.find(func(v *vr) bool { return v.t.k == kArr && equatable(v.t.elem) && v.t.elem.k != kArr && !v.t.isRes() }); len(vs) > 0 {
-			v := pick(g, vs)
+		if vs := s.find(func(v *dmVr) bool {
+			return v.t.k == dmKArr && dmEquatable(v.t.elem) && v.t.elem.k != dmKArr && !v.t.isRes()
+		}); len(vs) > 0 {
+			v := dmPick(g, vs)
 			g.feat("array-functions")
 			return v.name + ".contains(" + g.expr(s, v.t.elem, d-1) + ")"
 		}
 	case 8:
-		if vs := s.find(func(v *vr) bool { return v.t.k == kDict && (!v.t.isRes() || v.live) }); len(vs) > 0 {
-			v := pick(g, vs)
+		if vs := s.find(func(v *dmVr) bool { return v.t.k == dmKDict && (!v.t.isRes() || v.live) }); len(vs) > 0 {
+			v := dmPick(g, vs)
 			g.feat("dict-functions")
 			return v.name + ".containsKey(" + g.dictKey(s, v) + ")"
 		}
 	case 9:
-		if vs := s.find(func(v *vr) bool { return v.t.k == kOpt && (!v.t.isRes() || v.live) && !v.field }); len(vs) > 0 {
+		if vs := s.find(func(v *dmVr) bool { return v.t.k == dmKOpt && (!v.t.isRes() || v.live) && !v.field }); len(vs) > 0 {
 			g.feat("nil-comparison")
-			return "(" + pick(g, vs).name + " " + pick(g, []string{"==", "!="}) + " nil)"
+			return "(" + dmPick(g, vs).name + " " + dmPick(g, []string{"==", "!="}) + " nil)"
 		}
 	case 10:
-		if vs := s.find(func(v *vr) bool { return (v.t.k == kAnyStruct || v.t.k == kIface) && !v.t.isRes() }); len(vs) > 0 {
-			v := pick(g, vs)
+		if vs := s.find(func(v *dmVr) bool { return (v.t.k == dmKAnyStruct || v.t.k == dmKIface) && !v.t.isRes() }); len(vs) > 0 {
+			v := dmPick(g, vs)
 			u := g.primType()
 			if v.dyn != nil && g.chance(1, 2) {
 				u = v.dyn
 			}
-			if u.k != kFun {
+			if u.k != dmKFun {
 				g.feat("is-type")
 				if g.chance(1, 2) {
 					return v.name + ".isInstance(Type<" + u.String() + ">())"
@@ -955,64 +961,64 @@ func (g *gen) boolKind(s *scope, d int) string {
 			}
 		}
 	case 11:
-		if vs := s.varsKind(kRange); len(vs) > 0 {
+		if vs := s.varsKind(dmKRange); len(vs) > 0 {
 			g.feat("inclusive-range")
-			return pick(g, vs).name + ".contains(" + g.expr(s, tInt, d-1) + ")"
+			return dmPick(g, vs).name + ".contains(" + g.expr(s, dmTInt, d-1) + ")"
 		}
 	case 12:
 		g.feat("string-functions")
-		return g.atom(s, tString) + ".contains(" + g.strLit() + ")"
+		return g.atom(s, dmTString) + ".contains(" + g.strLit() + ")"
 	}
-	return pick(g, []string{"true", "false", "true"})
+	return dmPick(g, []string{"true", "false", "true"})
 }
 
-func (g *gen) stringExpr(s *scope, d int) string {
+func (g *dmGen) stringExpr(s *dmScope, d int) string {
 	switch g.r.Intn(12) {
 	case 0, 1:
 		g.feat("string-functions")
-		return g.atom(s, tString) + ".concat(" + g.expr(s, tString, d-1) + ")"
+		return g.atom(s, dmTString) + ".concat(" + g.expr(s, dmTString, d-1) + ")"
 	case 2, 3:
 		// string template
 		var parts []string
 		n := 1 + g.r.Intn(2)
 		for i := 0; i < n; i++ {
-			vs := s.find(func(v *vr) bool {
-				return (v.t.k == kInt || v.t.k == kString || v.t.k == kBool || v.t.k == kAddress) && !v.field
+			vs := s.find(func(v *dmVr) bool {
+				return (v.t.k == dmKInt || v.t.k == dmKString || v.t.k == dmKBool || v.t.k == dmKAddress) && !v.field
 			})
 			if len(vs) > 0 {
-				parts = append(parts, pick(g, []string{"", "a", " x="})+`\(`+pick(g, vs).name+`)`)
+				parts = append(parts, dmPick(g, []string{"", "a", " x="})+`\(`+dmPick(g, vs).name+`)`)
 			} else {
-				parts = append(parts, `\(`+itoa(g.r.Intn(9))+`)`)
+				parts = append(parts, `\(`+dmItoa(g.r.Intn(9))+`)`)
 			}
 		}
 		g.feat("string-template")
-		return `"` + strings.Join(parts, pick(g, []string{"", "-", " "})) + pick(g, []string{"", "z"}) + `"`
+		return `"` + strings.Join(parts, dmPick(g, []string{"", "-", " "})) + dmPick(g, []string{"", "z"}) + `"`
 	case 4:
-		if vs := s.varsKind(kInt); len(vs) > 0 {
+		if vs := s.varsKind(dmKInt); len(vs) > 0 {
 			g.feat("string-functions")
-			return pick(g, vs).name + ".toString()"
+			return dmPick(g, vs).name + ".toString()"
 		}
 	case 5:
 		g.feat("string-functions")
-		return g.atom(s, tString) + "." + pick(g, []string{"toLower()", "utf8.length.toString()", `replaceAll(of: "a", with: "b")`})
+		return g.atom(s, dmTString) + "." + dmPick(g, []string{"toLower()", "utf8.length.toString()", `replaceAll(of: "a", with: "b")`})
 	case 6:
-		if vs := s.find(func(v *vr) bool { return v.t.k == kArr && v.t.elem.eq(tString) }); len(vs) > 0 {
+		if vs := s.find(func(v *dmVr) bool { return v.t.k == dmKArr && v.t.elem.eq(dmTString) }); len(vs) > 0 {
 			g.feat("string-functions")
-			return "String.join(" + pick(g, vs).name + `, separator: ",")`
+			return "String.join(" + dmPick(g, vs).name + `, separator: ",")`
 		}
 	case 7:
 		g.feat("string-functions")
-		return `"hello".slice(from: ` + itoa(g.r.Intn(3)) + ", upTo: " + itoa(3+g.r.Intn(3)) + ")"
+		return `"hello".slice(from: ` + dmItoa(g.r.Intn(3)) + ", upTo: " + dmItoa(3+g.r.Intn(3)) + ")"
 	case 8:
-		if vs := s.find(func(v *vr) bool { return v.t.k == kArr && v.t.elem.eq(tUInt8) }); len(vs) > 0 {
+		if vs := s.find(func(v *dmVr) bool { return v.t.k == dmKArr && v.t.elem.eq(dmTUInt8) }); len(vs) > 0 {
 			g.feat("string-functions")
-			return "String.encodeHex(" + pick(g, vs).name + ")"
+			return "String.encodeHex(" + dmPick(g, vs).name + ")"
 		}
 	}
 	return g.strLit()
 }
 
-func (g *gen) optExpr(s *scope, t *ty, d int) string {
+func (g *dmGen) optExpr(s *dmScope, t *dmTy, d int) string {
 	e := t.elem
 	switch g.r.Intn(16) {
 	case 0, 1:
@@ -1025,11 +1031,11 @@ func (g *gen) optExpr(s *scope, t *ty, d int) string {
 		return "(" + g.boolExpr(s, d-1) + " ? " + g.optOperand(s, t, d-1) + " : nil)"
 	case 3, 4:
 		// failable cast
-		if e.k != kFun && e.k != kAnyStruct {
+		if e.k != dmKFun && e.k != dmKAnyStruct {
 			g.feat("failable-cast")
-			vs := s.find(func(v *vr) bool { return (v.t.k == kAnyStruct || v.t.k == kIface) && !v.t.isRes() })
+			vs := s.find(func(v *dmVr) bool { return (v.t.k == dmKAnyStruct || v.t.k == dmKIface) && !v.t.isRes() })
 			if len(vs) > 0 && g.chance(2, 3) {
-				return "(" + pick(g, vs).name + " as? " + e.String() + ")"
+				return "(" + dmPick(g, vs).name + " as? " + e.String() + ")"
 			}
 			u := e
 			if g.chance(1, 3) {
@@ -1043,90 +1049,94 @@ func (g *gen) optExpr(s *scope, t *ty, d int) string {
 			return x
 		}
 	case 7:
-		ds := s.find(func(v *vr) bool { return v.t.k == kDict && !v.t.isRes() && sub(v.t.elem, e) && v.t.elem.k != kOpt })
+		ds := s.find(func(v *dmVr) bool {
+			return v.t.k == dmKDict && !v.t.isRes() && dmSub(v.t.elem, e) && v.t.elem.k != dmKOpt
+		})
 		if len(ds) > 0 {
-			dv := pick(g, ds)
+			dv := dmPick(g, ds)
 			g.feat("dict-lookup")
 			return dv.name + "[" + g.dictKey(s, dv) + "]"
 		}
 	case 8:
-		if e.eq(tInt) {
-			if vs := s.find(func(v *vr) bool { return v.t.k == kArr && equatable(v.t.elem) && v.t.elem.k != kArr && !v.t.isRes() }); len(vs) > 0 {
-				v := pick(g, vs)
+		if e.eq(dmTInt) {
+			if vs := s.find(func(v *dmVr) bool {
+				return v.t.k == dmKArr && dmEquatable(v.t.elem) && v.t.elem.k != dmKArr && !v.t.isRes()
+			}); len(vs) > 0 {
+				v := dmPick(g, vs)
 				g.feat("array-functions")
 				return v.name + ".firstIndex(of: " + g.expr(s, v.t.elem, d-1) + ")"
 			}
 			g.feat("string-functions")
-			return "Int.fromString(" + g.expr(s, tString, d-1) + ")"
+			return "Int.fromString(" + g.expr(s, dmTString, d-1) + ")"
 		}
 	case 9:
 		// optional map
-		ovs := s.find(func(v *vr) bool {
-			return v.t.k == kOpt && !v.t.isRes() && v.t.elem.k != kOpt && v.t.elem.k != kRef && !v.field
+		ovs := s.find(func(v *dmVr) bool {
+			return v.t.k == dmKOpt && !v.t.isRes() && v.t.elem.k != dmKOpt && v.t.elem.k != dmKRef && !v.field
 		})
-		if len(ovs) > 0 && e.k != kOpt && !s.ctx.view {
-			v := pick(g, ovs)
+		if len(ovs) > 0 && e.k != dmKOpt && !s.ctx.view {
+			v := dmPick(g, ovs)
 			g.feat("optional-map")
-			return v.name + ".map(" + g.closure(s, fun(e, v.t.elem), d-1) + ")"
+			return v.name + ".map(" + g.closure(s, dmFun(e, v.t.elem), d-1) + ")"
 		}
 	case 10:
-		if e.k == kEnum {
+		if e.k == dmKEnum {
 			g.feat("enum")
-			return e.String() + "(rawValue: " + itoa(g.r.Intn(4)) + ")"
+			return e.String() + "(rawValue: " + dmItoa(g.r.Intn(4)) + ")"
 		}
 	}
 	return g.expr(s, e, d-1)
 }
 
 // optChain: `o?.f`, `o?.m(...)`, `(x as? S)?.f` of type <: t (t optional).
-func (g *gen) optChain(s *scope, t *ty, d int) string {
+func (g *dmGen) optChain(s *dmScope, t *dmTy, d int) string {
 	type cand struct{ e string }
 	var cs []cand
-	flat := func(ft *ty) *ty {
-		if ft.k == kOpt {
+	flat := func(ft *dmTy) *dmTy {
+		if ft.k == dmKOpt {
 			return ft
 		}
-		return opt(ft)
+		return dmOpt(ft)
 	}
 	for _, v := range s.all() {
-		if v.t.k != kOpt || v.field {
+		if v.t.k != dmKOpt || v.field {
 			continue
 		}
 		inner := v.t.elem
 		if inner.isRes() && !v.live {
 			continue
 		}
-		c := compOf(inner)
+		c := dmCompOf(inner)
 		if c != nil {
 			for _, f := range c.fields {
-				if f.access == "all" && !f.t.isRes() && sub(flat(f.t), t) {
-					if inner.k == kRef && !(f.t.k == kInt || f.t.k == kBool || f.t.k == kString) {
+				if f.access == "all" && !f.t.isRes() && dmSub(flat(f.t), t) {
+					if inner.k == dmKRef && !(f.t.k == dmKInt || f.t.k == dmKBool || f.t.k == dmKString) {
 						continue
 					}
 					cs = append(cs, cand{v.name + "?." + f.name})
 				}
 			}
 			for _, m := range c.allMethods() {
-				if m.ret != nil && !m.ret.isRes() && sub(flat(m.ret), t) && g.argsOK(m) && (m.access == "" || inner.k != kRef) && (!s.ctx.view || m.view) {
+				if m.ret != nil && !m.ret.isRes() && dmSub(flat(m.ret), t) && g.argsOK(m) && (m.access == "" || inner.k != dmKRef) && (!s.ctx.view || m.view) {
 					cs = append(cs, cand{g.call(s, v.name+"?", m, d)})
 				}
 			}
 		}
-		if inner.k == kString && sub(opt(tInt), t) {
+		if inner.k == dmKString && dmSub(dmOpt(dmTInt), t) {
 			cs = append(cs, cand{v.name + "?.length"})
 		}
-		if inner.k == kArr && !inner.isRes() && sub(opt(tInt), t) {
+		if inner.k == dmKArr && !inner.isRes() && dmSub(dmOpt(dmTInt), t) {
 			cs = append(cs, cand{v.name + "?.length"})
 		}
-		if inner.k == kString && sub(opt(tString), t) {
+		if inner.k == dmKString && dmSub(dmOpt(dmTString), t) {
 			cs = append(cs, cand{v.name + "?.toLower()"})
 		}
 	}
 	// failable cast followed by optional chaining
 	for _, v := range s.all() {
-		if v.dyn != nil && v.dyn.k == kStruct && !v.t.isRes() {
+		if v.dyn != nil && v.dyn.k == dmKStruct && !v.t.isRes() {
 			for _, f := range v.dyn.comp.fields {
-				if f.access == "all" && !f.t.isRes() && sub(flat(f.t), t) {
+				if f.access == "all" && !f.t.isRes() && dmSub(flat(f.t), t) {
 					cs = append(cs, cand{"(" + v.name + " as? " + v.dyn.String() + ")?." + f.name})
 				}
 			}
@@ -1136,26 +1146,26 @@ func (g *gen) optChain(s *scope, t *ty, d int) string {
 		return ""
 	}
 	g.feat("optional-chaining")
-	return pick(g, cs).e
+	return dmPick(g, cs).e
 }
 
-func (g *gen) arrExpr(s *scope, t *ty, d int) string {
+func (g *dmGen) arrExpr(s *dmScope, t *dmTy, d int) string {
 	e := t.elem
-	src := s.find(func(v *vr) bool { return v.t.k == kArr && !v.t.isRes() && sub(v.t, t) })
+	src := s.find(func(v *dmVr) bool { return v.t.k == dmKArr && !v.t.isRes() && dmSub(v.t, t) })
 	switch g.r.Intn(14) {
 	case 0, 1:
 		if len(src) > 0 {
 			g.feat("array-functions")
-			return pick(g, src).name + ".concat(" + g.expr(s, pick(g, src).t, d-1) + ")"
+			return dmPick(g, src).name + ".concat(" + g.expr(s, dmPick(g, src).t, d-1) + ")"
 		}
 	case 2:
 		if len(src) > 0 {
 			g.feat("array-functions")
-			return pick(g, src).name + ".reverse()"
+			return dmPick(g, src).name + ".reverse()"
 		}
 	case 3:
 		if len(src) > 0 {
-			v := pick(g, src)
+			v := dmPick(g, src)
 			g.feat("array-functions")
 			if v.minLen >= 1 {
 				return fmt.Sprintf("%s.slice(from: 0, upTo: %d)", v.name, 1+g.r.Intn(v.minLen))
@@ -1164,63 +1174,65 @@ func (g *gen) arrExpr(s *scope, t *ty, d int) string {
 		}
 	case 4, 5:
 		// map from any array of primitives
-		as := s.find(func(v *vr) bool { return v.t.k == kArr && !v.t.isRes() && v.t.elem.k != kFun && v.t.elem.k != kRef })
+		as := s.find(func(v *dmVr) bool {
+			return v.t.k == dmKArr && !v.t.isRes() && v.t.elem.k != dmKFun && v.t.elem.k != dmKRef
+		})
 		if len(as) > 0 && !s.ctx.view {
-			v := pick(g, as)
+			v := dmPick(g, as)
 			g.feat("array-map")
-			return v.name + ".map(" + g.closure(s, fun(e, v.t.elem), d-1) + ")"
+			return v.name + ".map(" + g.closure(s, dmFun(e, v.t.elem), d-1) + ")"
 		}
 	case 6:
 		if len(src) > 0 {
-			v := pick(g, src)
-			if v.t.elem.k != kFun && v.t.elem.k != kRef {
+			v := dmPick(g, src)
+			if v.t.elem.k != dmKFun && v.t.elem.k != dmKRef {
 				g.feat("array-filter")
 				return v.name + ".filter(" + g.viewPredicate(s, v.t.elem, d-1) + ")"
 			}
 		}
 	case 7:
-		ds := s.find(func(v *vr) bool {
-			return v.t.k == kDict && (sub(arr(v.t.key), t) || (sub(arr(v.t.elem), t) && !v.t.isRes())) && (!v.t.isRes() || v.live)
+		ds := s.find(func(v *dmVr) bool {
+			return v.t.k == dmKDict && (dmSub(dmArr(v.t.key), t) || (dmSub(dmArr(v.t.elem), t) && !v.t.isRes())) && (!v.t.isRes() || v.live)
 		})
 		if len(ds) > 0 {
-			v := pick(g, ds)
+			v := dmPick(g, ds)
 			g.feat("dict-functions")
-			if sub(arr(v.t.key), t) {
+			if dmSub(dmArr(v.t.key), t) {
 				return v.name + ".keys"
 			}
 			return v.name + ".values"
 		}
 	case 8:
-		cs := s.find(func(v *vr) bool { return v.t.k == kCArr && sub(arr(v.t.elem), t) })
+		cs := s.find(func(v *dmVr) bool { return v.t.k == dmKCArr && dmSub(dmArr(v.t.elem), t) })
 		if len(cs) > 0 {
 			g.feat("const-array")
-			return pick(g, cs).name + ".toVariableSized()"
+			return dmPick(g, cs).name + ".toVariableSized()"
 		}
 	case 9:
-		if e.eq(tUInt8) {
+		if e.eq(dmTUInt8) {
 			g.feat("string-functions")
-			return g.atom(s, tString) + ".utf8"
+			return g.atom(s, dmTString) + ".utf8"
 		}
-		if e.eq(tString) {
+		if e.eq(dmTString) {
 			g.feat("string-functions")
-			return g.atom(s, tString) + `.split(separator: " ")`
+			return g.atom(s, dmTString) + `.split(separator: " ")`
 		}
 	}
 	return g.lit(s, t, d)
 }
 
 // viewPredicate: `view fun (x: T): Bool { return ... }`
-func (g *gen) viewPredicate(s *scope, e *ty, d int) string {
+func (g *dmGen) viewPredicate(s *dmScope, e *dmTy, d int) string {
 	x := g.fresh("p")
 	body := "true"
 	switch e.k {
-	case kInt:
-		body = "x " + pick(g, []string{">", "<", "!=", ">="}) + " " + g.numLit(e, false)
-	case kString:
-		body = "x.length " + pick(g, []string{">", "<"}) + " " + itoa(g.r.Intn(4))
-	case kBool:
+	case dmKInt:
+		body = "x " + dmPick(g, []string{">", "<", "!=", ">="}) + " " + g.numLit(e, false)
+	case dmKString:
+		body = "x.length " + dmPick(g, []string{">", "<"}) + " " + dmItoa(g.r.Intn(4))
+	case dmKBool:
 		body = "x"
-	case kOpt:
+	case dmKOpt:
 		body = "x != nil"
 	}
 	body = strings.ReplaceAll(body, "x", x)
@@ -1228,20 +1240,22 @@ func (g *gen) viewPredicate(s *scope, e *ty, d int) string {
 }
 
 // closure: a function expression of type t capturing the enclosing scope.
-func (g *gen) closure(s *scope, t *ty, d int) string {
+func (g *dmGen) closure(s *dmScope, t *dmTy, d int) string {
 	g.feat("closure")
-	cs := &scope{parent: s, ctx: &fctx{ret: t.ret, contract: s.ctx.contract}, depth: s.depth + 1}
+	cs := &dmScope{parent: s, ctx: &dmFctx{ret: t.ret, contract: s.ctx.contract}, depth: s.depth + 1}
 	var ps []string
 	for _, p := range t.params {
 		n := g.fresh("a")
-		cs.add(&vr{name: n, t: p, live: true})
+		cs.add(&dmVr{name: n, t: p, live: true})
 		ps = append(ps, n+": "+p.anno())
 	}
-	b := &blk{ind: 0}
+	b := &dmBlk{ind: 0}
 	// capture: sometimes mutate an outer variable
 	if g.chance(1, 3) && d > 0 && !s.ctx.view {
-		if mv := s.find(func(v *vr) bool { return v.mut && !v.field && (v.t.k == kInt || v.t.k == kString || v.t.k == kBool) }); len(mv) > 0 {
-			v := pick(g, mv)
+		if mv := s.find(func(v *dmVr) bool {
+			return v.mut && !v.field && (v.t.k == dmKInt || v.t.k == dmKString || v.t.k == dmKBool)
+		}); len(mv) > 0 {
+			v := dmPick(g, mv)
 			b.add("%s = %s", v.name, g.expr(cs, v.t, 1))
 			g.feat("closure-captures-var")
 		}
@@ -1249,13 +1263,13 @@ func (g *gen) closure(s *scope, t *ty, d int) string {
 	if d > 1 && g.chance(1, 3) {
 		g.stmts(b, cs, 1, d-1)
 	}
-	if t.ret.k == kVoid {
+	if t.ret.k == dmKVoid {
 		if len(b.lines) == 0 {
 			return "fun (" + strings.Join(ps, ", ") + ") { }"
 		}
 		return "fun (" + strings.Join(ps, ", ") + ") { " + strings.Join(b.lines, "; ") + " }"
 	}
-	ret := g.expr(cs, t.ret, imin(d-1, 2))
+	ret := g.expr(cs, t.ret, dmImin(d-1, 2))
 	if len(b.lines) == 0 {
 		return "fun (" + strings.Join(ps, ", ") + "): " + t.ret.anno() + " { return " + ret + " }"
 	}
@@ -1269,11 +1283,11 @@ func (g *gen) closure(s *scope, t *ty, d int) string {
 }
 
 // refExpr: an expression of reference type t.
-func (g *gen) refExpr(s *scope, t *ty, d int) string {
+func (g *dmGen) refExpr(s *dmScope, t *dmTy, d int) string {
 	g.feat("reference")
 	// referenced variables: exact type or subtype for interface / Any targets
-	vs := s.find(func(v *vr) bool {
-		if v.t.k == kRef || v.t.k == kOpt || v.field {
+	vs := s.find(func(v *dmVr) bool {
+		if v.t.k == dmKRef || v.t.k == dmKOpt || v.field {
 			return false
 		}
 		if v.t.isRes() && !v.live {
@@ -1282,10 +1296,10 @@ func (g *gen) refExpr(s *scope, t *ty, d int) string {
 		if t.elem.isRes() != v.t.isRes() {
 			return false
 		}
-		return v.t.eq(t.elem) || ((t.elem.k == kIface || t.elem.k == kAnyStruct) && sub(v.t, t.elem))
+		return v.t.eq(t.elem) || ((t.elem.k == dmKIface || t.elem.k == dmKAnyStruct) && dmSub(v.t, t.elem))
 	})
 	if len(vs) > 0 {
-		return "&" + pick(g, vs).name + " as " + t.String()
+		return "&" + dmPick(g, vs).name + " as " + t.String()
 	}
 	if t.elem.isRes() {
 		panic("refExpr: no live resource of type " + t.elem.String())
@@ -1294,7 +1308,7 @@ func (g *gen) refExpr(s *scope, t *ty, d int) string {
 	return "&([" + g.expr(s, t.elem, d-1) + "] as [" + t.elem.String() + "])[0] as " + t.String()
 }
 
-func imin(a, b int) int {
+func dmImin(a, b int) int {
 	if a < b {
 		return a
 	}
